@@ -1,14 +1,19 @@
 SPECIFICATION MCSpec
-CONSTANTS Key = {"a1", "s1"}
-          MaxVal = 1
+CONSTANTS Key = {"a1", "a2", "s1"}
+          MaxVal = 2
           MaxObjs = 4
           Readers = {1}
           AsyncModes = {TRUE, FALSE}
           RelinkSiblings = TRUE
-          Depth = 0
+          Depth = 14
           MaxDiffKeys = 3
           SlotKeys = {"s1"}
-          MaxReads = 1
+          MaxReads = 2
 INVARIANTS TypeOK LiveReadable ReadCorrect NoSpuriousStale LookupSound DescendantsExact Rooted DiskContent DiskAligned ChainsSound
-VIEW View
+CONSTRAINT Emit
+ACTION_CONSTRAINT AtomicCap
+ACTION_CONSTRAINT SimBias
+ACTION_CONSTRAINT FinalStep
+ACTION_CONSTRAINT ReaderFocus
+ACTION_CONSTRAINT NoWipeWhileFlushing
 CHECK_DEADLOCK FALSE
